@@ -220,6 +220,7 @@ def r6(ctx):
 
 def r_plumb(ctx):
     namesake_plumbing(ctx, ctx.prog, r"^(<)?dnp3::master::", 40, "plumbing")
+    arg_namesakes(ctx, ctx.prog)
 
 
 def r_activity(ctx):
